@@ -761,7 +761,15 @@ func c19redirect(w *c19world) {
 	lvl := []zapcore.Level{zapcore.DebugLevel, zapcore.InfoLevel, zapcore.WarnLevel, zapcore.ErrorLevel, zapcore.DPanicLevel, zapcore.Level(6), zapcore.Level(99), zapcore.Level(-2), zapcore.Level(-128)}[g.Draw(9)]
 	valid := lvl >= zapcore.DebugLevel && lvl <= zapcore.FatalLevel
 	sink := zsim.NewSimSink(c.R, "std", 1, 1)
-	lg := zap.New(zapcore.NewCore(zapcore.NewJSONEncoder(encCfg()), sink, zapcore.DebugLevel))
+	// one run in three: the logger's level disables the bridge level while the
+	// redirection is made and is lowered afterwards (a configuration reload):
+	// what is enabled is decided when something is written, not before
+	al := zap.NewAtomicLevelAt(zapcore.DebugLevel)
+	if g.Chance(3) {
+		al.SetLevel(zapcore.FatalLevel)
+		w.c.R.Probe("std-log redirection made while the logger's level disables it")
+	}
+	lg := zap.New(zapcore.NewCore(zapcore.NewJSONEncoder(encCfg()), sink, al))
 	useNew := g.Chance(3)
 	plain := !useNew && g.Chance(3) // RedirectStdLog: no level argument, logs at info
 	if plain {
@@ -780,6 +788,7 @@ func c19redirect(w *c19world) {
 			return
 		}
 		if err == nil {
+			al.SetLevel(zapcore.DebugLevel)
 			sl.Print("via std")
 			if !bytes.Contains(sink.Data, []byte(`"msg":"via std"`)) || !bytes.Contains(sink.Data, []byte(`"level":"`+lvl.String()+`"`)) {
 				c.Fail("C19: a std logger from NewStdLogAt does not log at the requested level", "level %s: %q", lvl, sink.Data)
@@ -811,6 +820,7 @@ func c19redirect(w *c19world) {
 		}
 		return
 	}
+	al.SetLevel(zapcore.DebugLevel)
 	log.Print("redirected")
 	if !bytes.Contains(sink.Data, []byte(`"msg":"redirected"`)) || !bytes.Contains(sink.Data, []byte(`"level":"`+lvl.String()+`"`)) {
 		c.Fail("C19: after RedirectStdLogAt the standard logger does not reach the zap logger at the requested level", "level %s: %q (prior writer got %q)", lvl, sink.Data, prior.String())
